@@ -284,7 +284,7 @@ pub fn checks() -> Vec<Check> {
         rule: "full product; each case is an e57spec-encoded cloud holding the whole stored-value list, read by the real simple iterator with normalisation on and off; invariants (in [0,1], not NaN, monotone) on every value, equality with clamp((v-lo)/(hi-lo)) within 2.4e-7; non-trivial = both switch settings judged",
         assumptions: &[
             "ambiguous limits (variant differing between min and max, ScaledInteger limits) accept either the limit range, the type range or the scaled limit range, the same for all values of a cloud",
-            "limits that are not a range (lo > hi, NaN) only require the invariants; an Err from the reader is accepted there",
+            "limits that are not a range (lo > hi, NaN) only require the invariants (in [0,1], not NaN, monotone)",
         ],
         ignore_resource_deaths: false,
         budget_s: (120, 900),
